@@ -4,6 +4,8 @@ import (
 	"bytes"
 	"fmt"
 	"io"
+	"reflect"
+	"strings"
 	"testing/iotest"
 
 	"github.com/splunk/stef/go/pkg"
@@ -82,68 +84,108 @@ func runChunkingMode() {
 			propFail("C07 framing-parse case=%s err=%v", name, ps.err)
 			continue
 		}
-		hdrRegion := ps.frames[0].end // fixed header + var header frame
-		maxReads := len(res.truths) + 2
-		whole := summarize(readAll(root, bytes.NewReader(res.stream), maxReads))
-		if whole.n != len(res.truths) || whole.class != "eof" || whole.sig != fnv(res.truths...) {
-			propFail("C07 baseline-mismatch case=%s whole-buffer read gave %d records then %s (want %d, eof), dumps equal to the written records: %v", name, whole.n, whole.class, len(res.truths), whole.sig == fnv(res.truths...))
-			continue
-		}
-		stats["streams"]++
-		stats["stream-bytes"] += len(res.stream)
-		type variant struct {
-			name      string
-			src       io.Reader
-			protected bool
-		}
-		mk := func(protect int, max int) io.Reader {
-			return &shortReader{b: res.stream, r: rng.New(r.U64()), max: max, protect: protect}
-		}
-		vs := []variant{
-			{"onebyte", iotest.OneByteReader(bytes.NewReader(res.stream)), false},
-			{"half", iotest.HalfReader(bytes.NewReader(res.stream)), false},
-			{"dataerr", iotest.DataErrReader(bytes.NewReader(res.stream)), false},
-			{"short3", mk(0, 3), false},
-			{"short40", mk(0, 40), false},
-			{"hdr+onebyte", mk(hdrRegion, 1), true},
-			{"hdr+short7", mk(hdrRegion, 7), true},
-			{"hdr+short300", mk(hdrRegion, 300), true},
-			{"hdr+dataerr", iotest.DataErrReader(mk(hdrRegion, 50)), true},
-		}
-		reported := map[string]bool{}
-		for _, v := range vs {
-			got := summarize(readAll(root, v.src, maxReads))
-			stats["variant-"+v.name]++
-			if got.pan == "" && got.n == whole.n && got.sig == whole.sig && got.class == whole.class && !got.capped {
-				stats["variant-same-"+v.name]++
-				continue
-			}
-			sig := "short-read-frames"
-			switch {
-			case got.pan != "":
-				sig = "short-read-panic"
-			case got.ctor && !v.protected:
-				sig = "short-read-headers"
-			case got.n < whole.n && got.class == "eof":
-				sig = "short-read-early-eof"
-			}
-			stats["diff-"+sig+"-"+v.name]++
-			if reported[sig] {
-				continue
-			}
-			reported[sig] = true
-			sigCount[sig]++
-			if sigCount[sig] > maxReportsPerSig {
-				propFail("C07 %s case=%s variant=%s (details suppressed)", sig, name, v.name)
-				continue
-			}
-			propFail("C07 %s case=%s root=%s opts=%s variant=%s: whole-buffer read: %d records then %s; this source: %d records then %s (constructor failed: %v, panic: %q); stream=%s",
-				sig, name, root.name, o, v.name, whole.n, whole.class, got.n, got.class, got.ctor, got.pan, hx(trunc(res.stream, 400)))
-		}
+		checkSplits(r, name, root, o.String(), res.stream, res.truths, ps.frames[0].end)
 		// every variant except dataerr splits the header region into several reads
 		note("nontrivial %x", fnv(name, hx(res.stream)))
 		if i%20 == 0 {
-			sample("case=%s root=%s opts=%s bytes=%d records=%d headerRegion=%d", name, root.name, o, len(res.stream), len(res.truths), hdrRegion)
+			sample("case=%s root=%s opts=%s bytes=%d records=%d headerRegion=%d", name, root.name, o, len(res.stream), len(res.truths), ps.frames[0].end)
+		}
+	}
+	bigTailCases(r)
+}
+
+// stringLeafPaths lists the getter paths from the record to string fields that are reached through
+// plain (non-dictionary, non-optional) struct fields only.
+func stringLeafPaths(t *recgen.Type, prefix []string, depth int, out *[][]string) {
+	if t == nil || t.Kind != recgen.KStruct || t.Def == nil || depth > 4 {
+		return
+	}
+	for _, f := range t.Def.Fields {
+		if f.Optional {
+			continue
+		}
+		switch {
+		case f.Type.Kind == recgen.KString && f.Type.Enum == "":
+			*out = append(*out, append(append([]string(nil), prefix...), f.Name))
+		case f.Type.Kind == recgen.KStruct && f.Type.Def != nil && f.Type.Def.Dict == "":
+			stringLeafPaths(f.Type, append(append([]string(nil), prefix...), f.Name), depth+1, out)
+		}
+	}
+}
+
+// bigTailCases: streams in which ONE string field changes in every record and carries long
+// values, everything else stays at its initial value: the field's column is large and - when the
+// columns after it stay empty - it is the last data of the stream, read by one large ReadFull
+// that ends exactly at the end of the source. The read-splitting variants (among them sources
+// that return the last bytes together with io.EOF) must give the whole-buffer outcome.
+func bigTailCases(r *rng.R) {
+	for ri, root := range roots {
+		var paths [][]string
+		stringLeafPaths(root.ty, nil, 0, &paths)
+		if len(paths) == 0 {
+			note("note big-tail: no plain string leaf under %s", root.name)
+			continue
+		}
+		picks := 3
+		if thorough {
+			picks = len(paths)
+		}
+		for k := 0; k < picks && k < len(paths); k++ {
+			path := paths[(k*7+ri+int(r.Intn(len(paths))))%len(paths)]
+			if thorough {
+				path = paths[k]
+			}
+			for _, zstd := range []bool{false, true} {
+				o := wopts{zstd: zstd}
+				name := fmt.Sprintf("ch-bigtail-%s-%s-%v", root.name, strings.Join(path, "."), zstd)
+				note("case %s", name)
+				cl := &chunkLog{}
+				w, err, pan := newWriterDet(root, cl, o, nil)
+				if err != nil || pan != "" {
+					propFail("C07 writer-error case=%s %v %s", name, err, pan)
+					continue
+				}
+				var truths []string
+				werr := ""
+				nrec := 24 + r.Intn(12)
+				for i := 0; i < nrec && werr == ""; i++ {
+					_, pan := safe(func() error {
+						v := w.Rec()
+						for _, g := range path[:len(path)-1] {
+							v = v.MethodByName(g).Call(nil)[0]
+						}
+						val := fmt.Sprintf("rec-%06d-", i) + strings.Repeat(string(rune('a'+i%26)), 5000+r.Intn(3000))
+						v.MethodByName("Set" + path[len(path)-1]).Call([]reflect.Value{reflect.ValueOf(val)})
+						return nil
+					})
+					if pan != "" {
+						werr = pan
+						break
+					}
+					truths = append(truths, recgen.Dump(w.Rec(), root.ty))
+					if err, pan := safe(w.Write); err != nil || pan != "" {
+						werr = fmt.Sprintf("%v%s", err, pan)
+					}
+				}
+				if werr == "" {
+					if err, pan := safe(w.Flush); err != nil || pan != "" {
+						werr = fmt.Sprintf("%v%s", err, pan)
+					}
+				}
+				if werr != "" {
+					propFail("C07 writer-error case=%s %s", name, werr)
+					continue
+				}
+				stream := append([]byte(nil), cl.buf.Bytes()...)
+				ps := parseStream(stream)
+				if ps.err != nil || len(ps.frames) == 0 {
+					propFail("C07 framing-parse case=%s err=%v", name, ps.err)
+					continue
+				}
+				stats["big-tail-streams"]++
+				checkSplits(r, name, root, o.String()+" big-tail "+strings.Join(path, "."), stream, truths, ps.frames[0].end)
+				note("nontrivial %x", fnv(name))
+			}
 		}
 	}
 }
@@ -153,4 +195,93 @@ func trunc(b []byte, n int) []byte {
 		return b[:n]
 	}
 	return b
+}
+
+// eagerEOFReader hands out up to max bytes per call (as many as the caller asks for when max is 0)
+// and returns io.EOF TOGETHER with the last bytes, as an HTTP body with a known length or a
+// decompressor may do.
+type eagerEOFReader struct {
+	b   []byte
+	max int
+}
+
+func (e *eagerEOFReader) Read(p []byte) (int, error) {
+	if len(e.b) == 0 {
+		return 0, io.EOF
+	}
+	n := len(p)
+	if e.max > 0 && n > e.max {
+		n = e.max
+	}
+	n = copy(p[:n], e.b)
+	e.b = e.b[n:]
+	if len(e.b) == 0 {
+		return n, io.EOF
+	}
+	return n, nil
+}
+
+// checkSplits reads the stream through sources that split it differently and compares every
+// outcome with the whole-buffer read.
+func checkSplits(r *rng.R, name string, root *rootSpec, opts string, stream []byte, truths []string, hdrRegion int) {
+	maxReads := len(truths) + 2
+	whole := summarize(readAll(root, bytes.NewReader(stream), maxReads))
+	if whole.n != len(truths) || whole.class != "eof" || whole.sig != fnv(truths...) {
+		propFail("C07 baseline-mismatch case=%s whole-buffer read gave %d records then %s (want %d, eof), dumps equal to the written records: %v", name, whole.n, whole.class, len(truths), whole.sig == fnv(truths...))
+		return
+	}
+	stats["streams"]++
+	stats["stream-bytes"] += len(stream)
+	type variant struct {
+		name      string
+		src       io.Reader
+		protected bool
+	}
+	mk := func(protect int, max int) io.Reader {
+		return &shortReader{b: stream, r: rng.New(r.U64()), max: max, protect: protect}
+	}
+	vs := []variant{
+		{"onebyte", iotest.OneByteReader(bytes.NewReader(stream)), false},
+		{"half", iotest.HalfReader(bytes.NewReader(stream)), false},
+		{"dataerr", iotest.DataErrReader(bytes.NewReader(stream)), false},
+		{"short3", mk(0, 3), false},
+		{"short40", mk(0, 40), false},
+		{"hdr+onebyte", mk(hdrRegion, 1), true},
+		{"hdr+short7", mk(hdrRegion, 7), true},
+		{"hdr+short300", mk(hdrRegion, 300), true},
+		{"hdr+dataerr", iotest.DataErrReader(mk(hdrRegion, 50)), true},
+		{"full+eof", &eagerEOFReader{b: stream}, false},
+		{"64k+eof", &eagerEOFReader{b: stream, max: 64 << 10}, false},
+		{"5000+eof", &eagerEOFReader{b: stream, max: 5000}, false},
+	}
+	reported := map[string]bool{}
+	for _, v := range vs {
+		got := summarize(readAll(root, v.src, maxReads))
+		stats["variant-"+v.name]++
+		if got.pan == "" && got.n == whole.n && got.sig == whole.sig && got.class == whole.class && !got.capped {
+			stats["variant-same-"+v.name]++
+			continue
+		}
+		sig := "short-read-frames"
+		switch {
+		case got.pan != "":
+			sig = "short-read-panic"
+		case got.ctor && !v.protected:
+			sig = "short-read-headers"
+		case got.n < whole.n && got.class == "eof":
+			sig = "short-read-early-eof"
+		}
+		stats["diff-"+sig+"-"+v.name]++
+		if reported[sig] {
+			continue
+		}
+		reported[sig] = true
+		sigCount[sig]++
+		if sigCount[sig] > maxReportsPerSig {
+			propFail("C07 %s case=%s variant=%s (details suppressed)", sig, name, v.name)
+			continue
+		}
+		propFail("C07 %s case=%s root=%s opts=%s variant=%s: whole-buffer read: %d records then %s; this source: %d records then %s (constructor failed: %v, panic: %q); stream=%s",
+			sig, name, root.name, opts, v.name, whole.n, whole.class, got.n, got.class, got.ctor, got.pan, hx(trunc(stream, 400)))
+	}
 }
